@@ -58,7 +58,11 @@ def gen_cases(tier, seed):
             extra = {}
         z0, z1 = rng.uniform(zmin, -0.01), rng.uniform(zmin, -0.01)
         rho = 10 ** rng.uniform(-1, 3.6)
-        m = int(rng.integers(0, 5))
+        m = int(rng.integers(0, 6))
+        if m == 5:
+            rho = 0.0           # exactly vertically aligned endpoints
+            if abs(z1 - z0) < 5:
+                z1 = max(zmin, z0 - 50.0) if z0 - 50.0 > zmin else z0 + 50.0
         if m == 1:
             rho = rng.uniform(0.01, 30)
         elif m == 2:
